@@ -15,6 +15,53 @@ def params(rng, small=False):
             "clf_mode": rng.choice(["fixed", "mean"]), "pmargin": rng.choice([0.2, 0.5]), "pacc": rng.choice([0.6, 0.9])}
 
 
+def replay_behaviour(beh, seed=0):
+    """step the real MD3 along one TLC-generated behaviour; returns None or a description of the first disagreement"""
+    import random
+    import numpy as np
+    import pandas as pd
+    from menelaus.concept_drift import MD3
+    rng = random.Random(seed)
+    first = beh[0]
+    clf = D.ThresholdClf("fixed").fit(np.zeros((2, 2)), [0, 1])
+    det = MD3(clf=clf, margin_calculation_function=D.margin, sensitivity=float(first["call"]["sens"]), k=2,
+              oracle_data_length_required=first["call"]["L"])
+    for i, stp in enumerate(beh):
+        c, op = stp["call"], stp["call"]["op"]
+        raised = False
+        try:
+            if op == "set_reference":
+                det.set_reference(pd.DataFrame([D.sample_row(rng, bool(m), bool(cc)) for m, cc in stp["rows"]]), target_name="y")
+            elif op == "update":
+                det.update(pd.DataFrame([D.sample_row(rng, bool(c["a"]))]))
+            elif op == "update_refused":
+                det.update(pd.DataFrame([D.sample_row(rng, True) for _ in range(c["a"])]))
+            elif op == "label":
+                det.give_oracle_label(pd.DataFrame([D.sample_row(rng, bool(c["a"]), bool(c["b"]))]))
+            else:
+                rows = [D.sample_row(rng, True, True) for _ in range(c["a"])]
+                if not c["b"]:
+                    for r in rows:
+                        r["z"] = r.pop("x1")
+                det.give_oracle_label(pd.DataFrame(rows))
+        except ValueError:
+            raised = True
+        refused = op.endswith("refused")
+        if raised != refused:       # a call the specification refuses in this state must raise; an accepted one must not
+            return "step %d (%s %r): raised=%s, specification says refused=%s" % (i, op, c, raised, refused)
+        got = D.project(det)
+        exp = stp["exp"]
+        flat = {"state": got["state"], "waiting": got["waiting"], "noracle": got["noracle"], "total": got["total"], "since": got["since"],
+                "n": got["ref"]["n"]}
+        for k in flat:
+            if flat[k] != exp[k]:
+                return "step %d (%s %r): %s is %r, specification says %r" % (i, op, c, k, flat[k], exp[k])
+        for k, v in (("cur", got["cur"]), ("md", got["ref"]["md"]), ("mdstd", got["ref"]["mdstd"]), ("acc", got["ref"]["acc"]), ("accstd", got["ref"]["accstd"])):
+            if abs(float(v) - float(exp[k])) > 1e-9 * max(1.0, abs(float(v))):
+                return "step %d (%s %r): %s is %s, specification says %s" % (i, op, c, k, v, exp[k])
+    return None
+
+
 def run(ctx):
     q, rng = ctx.quick, ctx.rng
     ctx.model("MC_MD3", "MC_MD3%s.cfg" % ("" if q else "_deep"), require_actions=("Ref", "Upd", "UpdRefused", "Lab", "LabRefused"))
@@ -30,6 +77,30 @@ def run(ctx):
     ts = pmap(D.run, work)
     ctx.validate("MD3", ts, "all interleavings of 7 call kinds, depth %d x %d configurations" % (n, ncfg), sabotage=D.sabotage,
                  replay=rep(ts), nontrivial=lambda t: any(e["state"] != "None" for e in t["ev"]) and any(e["raised"] != "None" for e in t["ev"]))
+    # conformance B: every behaviour TLC enumerates for the MD3 specification, stepped through the real object
+    from .. import tlc
+    behs, res = tlc.generate("Gen_MD3", "Gen_MD3%s.cfg" % ("" if q else "_deep"))
+    uniq = {}
+    for b in behs:
+        uniq[repr(b)] = b
+    behs = list(uniq.values())
+    if len(behs) < 500:
+        raise tlc.MachineryError("Gen_MD3 emitted only %d behaviours" % len(behs))
+    outs = pmap(replay_behaviour, [(b, i) for i, b in enumerate(behs)])
+    bad = [(b, o) for b, o in zip(behs, outs) if o]
+    for b, o in bad[:5]:
+        ctx.violation("TLC-generated MD3 behaviour not reproduced by the real class: " + o,
+                      {"stage": "replay of TLC-enumerated behaviours", "behaviour": b, "why": o, "replay": {"mode": "behaviour", "behaviour": b}})
+    ctx.traces += len(behs)
+    ctx.events += sum(len(b) for b in behs)
+    ctx.nontrivial += sum(1 for b in behs if any(s["exp"]["state"] != "None" for s in b))
+    ctx.states += res["distinct"]
+    ctx.transitions += res["generated"]
+    ctx.parts["behaviours:Gen_MD3"] = {"behaviours_replayed": len(behs), "steps": sum(len(b) for b in behs), "mismatches": len(bad)}
+    probe = [dict(s) for s in behs[len(behs) // 2]]
+    probe[-1] = dict(probe[-1], exp=dict(probe[-1]["exp"], total=probe[-1]["exp"]["total"] + 1))
+    if replay_behaviour(probe) is None:
+        raise tlc.MachineryError("the MD3 behaviour replayer does not compare the projection")
     # long random scripts
     n2, ln = (60, 150) if q else (400, 400)
     t2 = pmap(D.run, [(params(rng), D.random_script(rng, ln), rng.randrange(10 ** 6)) for _ in range(n2)])
@@ -42,6 +113,12 @@ def run(ctx):
 
 def replay(ctx, bundle):
     r = bundle["replay"]
+    if r.get("mode") == "behaviour":
+        o = replay_behaviour(r["behaviour"])
+        if o:
+            ctx.violation("TLC-generated MD3 behaviour not reproduced by the real class: " + o, bundle)
+        ctx.traces, ctx.nontrivial, ctx.states, ctx.transitions = 1, 2, 1, 1
+        return ctx.finish()
     t = D.run(r["params"], [tuple(s) for s in r["script"]], r["seed"])
     ctx.validate("MD3", [t], "replay", replay=lambda i: r)
     return ctx.finish()
